@@ -143,21 +143,42 @@ def run(ctx) -> None:
         ctx.ok("R02b", inst)
     else:
         ctx.fail("R02b", v, v.node, inst, "an instruction can be marked started/dispatched while its threshold has not been reached")
+    def _delegate(fn):
+        """visit_X whose body is `yield from self.<helper>(<its node parameter>)` -> the helper (bounded)."""
+        for _ in range(3):
+            body = [st for st in fn.node.body if not (isinstance(st, ast.Expr) and isinstance(st.value, ast.Constant))]
+            if len(body) == 1 and isinstance(body[0], ast.Expr) and isinstance(body[0].value, ast.YieldFrom) \
+                    and isinstance(body[0].value.value, ast.Call) and isinstance(body[0].value.value.func, ast.Attribute) \
+                    and norm(body[0].value.value.func.value) == "self" and len(fn.node.args.args) > 1 \
+                    and [norm(a) for a in body[0].value.value.args] == [fn.node.args.args[1].arg]:
+                tgt = pi.find_method(body[0].value.value.func.attr)
+                if tgt is None or tgt is fn:
+                    return fn
+                fn = tgt
+            else:
+                return fn
+        return fn
     for name in ("visit_BlankNode", "visit_CommentNode"):
-        f = pi.methods[name]
+        f = _delegate(pi.methods[name])
         ctx.analysed(f)
         g = cfg_of(f)
+        wpar = f.node.args.args[1].arg
+        n_marks = 0
         for n in g.nodes:
             if n.kind != "stmt":
                 continue
             for t, val, s_ in assigned_attrs(n.ast):
                 if t.attr in ("started", "completed") and isinstance(val, ast.Constant) and val.value is True:
+                    n_marks += 1
                     inst = f"{name}: {n.text()} only when not trailing whitespace"
                     p = g.search(None, lambda x, n=n: x.id == n.id, blocked_edge=lambda s_, d, l: g.nodes[s_].kind == "test"
-                                 and norm(g.nodes[s_].ast) == "node.has_only_trailing_whitespace" and l == "F"
+                                 and norm(g.nodes[s_].ast) == f"{wpar}.has_only_trailing_whitespace" and l == "F"
                                  and any(s_ in g.search([dd], lambda y: False, collect=True) for dd, ll in g.succ[s_] if ll == "T"))
                     if p is None:
                         ctx.ok("R02b", inst)
                     else:
                         ctx.fail("R02b", f, n.ast, inst, "a blank/comment line at the end of a scope is passed: lines appended after it "
                                  "later would never run", p)
+        if n_marks < 2:
+            raise AnchorError(f"{name} (-> {f.short}): the started/completed marks of a whitespace line were not found "
+                              "(the rule would pass vacuously)")
